@@ -205,7 +205,7 @@ func runGc(t test) result {
 // nondeterministic reports sources whose output cannot be compared run to run.
 func nondeterministic(src []byte) bool {
 	s := string(src)
-	return strings.Contains(s, "time.Now") || strings.Contains(s, "math/rand") || strings.Contains(s, "runtime.NumGoroutine") || strings.Contains(s, "os.Getpid")
+	return strings.Contains(s, "time.Now") || strings.Contains(s, "math/rand") || strings.Contains(s, "runtime.NumGoroutine") || strings.Contains(s, "os.Getpid") || strings.Contains(s, "os.Environ") || strings.Contains(s, "os.Getenv") || strings.Contains(s, "os.LookupEnv")
 }
 
 func parallel(n int, f func(i int)) {
@@ -275,6 +275,17 @@ func init() {
 			}
 			ts = sel
 		}
+		if !c.Thorough() && c.Arg == "" {
+			// quick tier: a seeded half of the corpus
+			var sel []test
+			for _, t := range ts {
+				h := sha256.Sum256([]byte(fmt.Sprintf("%d/%s", c.Seed, t.path)))
+				if h[0]%2 == 0 {
+					sel = append(sel, t)
+				}
+			}
+			ts = sel
+		}
 		gold := loadGolden()
 		var mu sync.Mutex
 		parallel(len(ts), func(i int) {
@@ -307,6 +318,12 @@ func init() {
 				}
 				r := runCmd(bin, t.src, 60*time.Second, append(args, "run", ".go")...)
 				count("evaluations")
+				// a schedule-dependent program (e.g. `go panic(1)` racing with exit) is retried: only a
+				// difference that shows in three consecutive runs is reported
+				for try := 0; try < 2 && (r.Exit != 0 || r.Stdout != g.Stdout || r.Stderr != g.Stderr); try++ {
+					count("retries")
+					r = runCmd(bin, t.src, 60*time.Second, append(args, "run", ".go")...)
+				}
 				if r.Exit != 0 || r.Stdout != g.Stdout || r.Stderr != g.Stderr {
 					fail("corpus-run-differs-from-gc", map[string]string{"scriggo_exit": fmt.Sprint(r.Exit), "scriggo_stdout": clip(r.Stdout), "scriggo_stderr": clip(r.Stderr), "gc_stdout": clip(g.Stdout), "gc_stderr": clip(g.Stderr)})
 					return
